@@ -14,324 +14,80 @@
   word long (parser: `.blkw 0` rejected) and whose blocks do not overlap (pass 2's check, C02.second_pass_iff), the recorded
   addresses are pairwise different — strictly increasing inside a block, in disjoint ranges across blocks — so `lookup_line`
   is injective (no address maps to two lines) and `rev_lookup_line` is its inverse.
+  **Source level** (this file; Lemmas/ParserFacts, ParserIdx, ParserOut, ParserDischarge): every hypothesis of those theorems
+  is discharged for programs that come out of `parse_ast` — the lexer emits tokens with ordered spans, a newline token ends
+  on a '\n' of the text, consecutive statements are separated by a newline token, so statements start on strictly increasing
+  lines; `.blkw 0` is rejected and string literals are below 64 K.  Hence for ANY source text that parses and assembles with
+  debug symbols: the line of each statement maps to the statement's address, `lookup_line` is injective and
+  `rev_lookup_line` is its inverse (`source_line_maps_to_statement_address`, `source_rev_lookup_inverts`).
+  The theorems below source level are in Lemmas/C24Core.lean.
 -/
-import Lc3V.Model.Asm
-import Lc3V.Lemmas.LineRec
-import Lc3V.Lemmas.CursorAt
-import Lc3V.Lemmas.LineInj
+import Lc3V.Lemmas.C24Core
+import Lc3V.Lemmas.ParserDischarge
+import Lc3V.Lemmas.AssembledWFDebug
 set_option linter.unusedSimpArgs false
+set_option linter.unusedVariables false
 namespace Lc3V.C24
 open Lc3V
 
-def NonEmptyBlocks (m : LineMap) : Prop := ∀ b ∈ m, b.2 ≠ []
+/-- the statements `parse_ast` produces start on strictly increasing lines of the text -/
+theorem parsed_lines_increasing (src : List Char) (stmts : List Stmt) (h : parseAst src = .ok stmts) :
+    LinesFrom (SourceInfo.ofText src) (SourceInfo.ofText src).countLines 0 stmts :=
+  (parsed_program_lines src stmts h).2.2
 
-theorem keys_ge (s0 : Nat) (w0 : List W) (rest : LineMap) (h : notOverlapping ((s0, w0) :: rest) = true) (hne : NonEmptyBlocks rest) :
-    ∀ b ∈ rest, s0 + w0.length ≤ b.1 := by
-  induction rest generalizing s0 w0 with
-  | nil => intro b hb; cases hb
-  | cons x xs ih =>
-    obtain ⟨s1, w1⟩ := x
-    simp only [notOverlapping, Bool.and_eq_true, decide_eq_true_eq] at h
-    intro b hb
-    rcases List.mem_cons.mp hb with rfl | hb
-    · exact h.1
-    · have := ih s1 w1 h.2 (fun y hy => hne y (by simp [hy])) b hb
-      have : 0 < w1.length := List.length_pos_iff.mpr (hne (s1, w1) (by simp))
-      omega
-
-/-- the block `get` selects for a line inside a block is that block -/
-theorem lastLE_of_mem (m : LineMap) (hno : notOverlapping m = true) (hne : NonEmptyBlocks m) (s : Nat) (ws : List W)
-    (hm : (s, ws) ∈ m) (i : Nat) (hi : i < ws.length) :
-    (m.filter (fun b => b.1 ≤ s + i)).getLast? = some (s, ws) := by
-  induction m with
-  | nil => cases hm
-  | cons x xs ih =>
-    obtain ⟨s0, w0⟩ := x
-    have hrest := keys_ge s0 w0 xs hno (fun y hy => hne y (by simp [hy]))
-    have hno' : notOverlapping xs = true := by
-      cases xs with
-      | nil => rfl
-      | cons y ys => obtain ⟨s1, w1⟩ := y; simp only [notOverlapping, Bool.and_eq_true] at hno; exact hno.2
-    rcases List.mem_cons.mp hm with heq | hm'
-    · cases heq
-      have : xs.filter (fun b => b.1 ≤ s + i) = [] := by
-        apply List.filter_eq_nil_iff.mpr
-        intro b hb
-        have := hrest b hb
-        simp only [decide_eq_true_eq]; omega
-      simp [List.filter, this]
-    · have hge := hrest (s, ws) hm'
-      have ih' := ih hno' (fun y hy => hne y (by simp [hy])) hm'
-      have hs0 : s0 ≤ s + i := by omega
-      simp only [List.filter, hs0, decide_true]
-      cases hf : List.filter (fun b => decide (b.1 ≤ s + i)) xs with
-      | nil => rw [hf] at ih'; cases ih'
-      | cons y ys => rw [hf] at ih'; rw [List.getLast?_cons_cons]; exact ih'
-
-/-- a line inside a block maps to the address recorded for it -/
-theorem get_of_mem (m : LineMap) (hno : notOverlapping m = true) (hne : NonEmptyBlocks m) (s : Nat) (ws : List W)
-    (hm : (s, ws) ∈ m) (i : Nat) (hi : i < ws.length) : m.get (s + i) = some ws[i] := by
-  unfold LineMap.get
-  rw [lastLE_of_mem m hno hne s ws hm i hi]
-  simp [hi]
-
-theorem mem_zip_range (ws : List W) (i : Nat) (x : W) (h : (i, x) ∈ (List.range ws.length).zip ws) :
-    ∃ hi : i < ws.length, ws[i] = x := by
-  obtain ⟨j, hj, hget⟩ := List.mem_iff_getElem.mp h
-  rw [List.getElem_zip] at hget
-  simp only [List.getElem_range, Prod.mk.injEq] at hget
-  obtain ⟨rfl, rfl⟩ := hget
-  simp only [List.length_zip, List.length_range, Nat.min_self] at hj
-  exact ⟨hj, rfl⟩
-
-/-- `iter` lists exactly the pairs `get` answers: every enumerated (line, address) is what `lookup_line` returns -/
-theorem get_of_iter (m : LineMap) (hno : notOverlapping m = true) (hne : NonEmptyBlocks m) (l : Nat) (a : W)
-    (h : (l, a) ∈ m.iter) : m.get l = some a := by
-  unfold LineMap.iter at h
-  obtain ⟨b, hb, hmap⟩ := List.mem_flatMap.mp h
-  obtain ⟨p, hp, heq⟩ := List.mem_map.mp hmap
-  obtain ⟨s, ws⟩ := b
-  obtain ⟨i, x⟩ := p
-  simp only [Prod.mk.injEq] at heq
-  obtain ⟨rfl, rfl⟩ := heq
-  obtain ⟨hi, hx⟩ := mem_zip_range ws i x hp
-  rw [get_of_mem m hno hne s ws hb i hi, hx]
-
-/-- all addresses recorded in the map are pairwise different (what "no address maps to two lines" means) -/
-def DistinctAddrs (m : LineMap) : Prop := (m.flatMap (·.2)).Nodup
-
-theorem idxOf_spec (a : W) : ∀ (ws : List W) (k i : Nat) (hi : i < ws.length), ws[i] = a → (∀ j (hj : j < i), ws[j]'(by omega) ≠ a) →
-    idxOf a ws k = some (k + i) := by
-  intro ws
-  induction ws with
-  | nil => intro k i hi; simp at hi
-  | cons x xs ih =>
-    intro k i hi hget hfirst
-    unfold idxOf
-    cases i with
-    | zero => simp only [List.getElem_cons_zero] at hget; simp [hget]
-    | succ i =>
-      have hx : x ≠ a := by have := hfirst 0 (by omega); simpa using this
-      rw [if_neg hx]
-      have := ih (k + 1) i (by simpa using hi) (by simpa using hget) (by intro j hj; have := hfirst (j + 1) (by omega); simpa using this)
-      rw [this]; congr 1; omega
-
-theorem idxOf_none (a : W) : ∀ (ws : List W) (k : Nat), a ∉ ws → idxOf a ws k = none := by
-  intro ws
-  induction ws with
-  | nil => intro k _; rfl
-  | cons x xs ih =>
-    intro k h
-    unfold idxOf
-    have hx : x ≠ a := fun e => h (by rw [e]; simp)
-    rw [if_neg hx]
-    exact ih (k + 1) (fun hm => h (List.mem_cons_of_mem _ hm))
-
-/-- with pairwise different addresses, the address maps back to its line: `rev_lookup_line` inverts `lookup_line` -/
-theorem find_of_mem (m : LineMap) (hd : DistinctAddrs m) (s : Nat) (ws : List W) (hm : (s, ws) ∈ m) (i : Nat) (hi : i < ws.length) :
-    m.find ws[i] = some (s + i) := by
-  unfold LineMap.find
-  induction m with
-  | nil => cases hm
-  | cons x xs ih =>
-    obtain ⟨s0, w0⟩ := x
-    unfold DistinctAddrs at hd
-    simp only [List.flatMap_cons, List.nodup_append] at hd
-    obtain ⟨hd0, hdr, hdis⟩ := hd
-    rcases List.mem_cons.mp hm with heq | hm'
-    · cases heq
-      have : idxOf ws[i] ws 0 = some (0 + i) := by
-        apply idxOf_spec _ ws 0 i hi rfl
-        intro j hj hje
-        have := (List.getElem_inj hd0).mp hje
-        omega
-      simp [List.findSome?, this]
-    · have hnot : ws[i] ∉ w0 := by
-        intro hin
-        have : ws[i] ∈ xs.flatMap (·.2) := List.mem_flatMap.mpr ⟨(s, ws), hm', List.getElem_mem hi⟩
-        exact hdis _ hin _ this rfl
-      simp only [List.findSome?, idxOf_none _ w0 0 hnot, Option.map_none]
-      exact ih hdr hm'
-
-/-- statements that occupy no memory or open/close a block never record a line -/
-theorem no_line_for_markers (st : P1) (stmt : Stmt) (cursor : Option Cursor) (labels : List (Key × SymData)) (rel : List (W × Key))
-    (st' : P1) (hk : noLine stmt.nucleus = true) (h : p1Advance st stmt cursor labels rel = .ok st') : st'.lines = st.lines := by
-  unfold p1Advance at h
-  split at h
-  · cases h; rfl
-  · dsimp only at h
-    split at h
-    · cases h
-    · cases h
-      cases hl : st.lines with
-      | none => rfl
-      | some p => obtain ⟨ls, s⟩ := p; simp [hk]
-
-/-- any other statement inside a block records its line as the location counter before it (its first word's address) -/
-theorem line_recorded (st : P1) (stmt : Stmt) (cur : Cursor) (labels : List (Key × SymData)) (rel : List (W × Key))
-    (st' : P1) (ls : List (Option W)) (s : SourceInfo) (hk : noLine stmt.nucleus = false) (hl : st.lines = some (ls, s))
-    (h : p1Advance st stmt (some cur) labels rel = .ok st') :
-    st'.lines = some (ls.set (s.getLine stmt.span.1) (some cur.lc), s) := by
-  unfold p1Advance at h
-  dsimp only at h
-  split at h
-  · cases h
-  · cases h; simp [hl, hk]
-
-/-- outside a block nothing is recorded -/
-theorem no_line_outside_block (st : P1) (stmt : Stmt) (labels : List (Key × SymData)) (rel : List (W × Key)) (st' : P1)
-    (h : p1Advance st stmt none labels rel = .ok st') : st'.lines = st.lines := by
-  unfold p1Advance at h; cases h; rfl
-
-example : noLine (.directive (.orig 0x3000)) = true ∧ noLine (.directive .end_) = true ∧
-    noLine (.directive (.external ⟨['X'], 0⟩)) = true ∧ noLine (.instr .halt) = false ∧ noLine (.directive (.blkw 3)) = false :=
-  ⟨rfl, rfl, rfl, rfl, rfl⟩
-
-/-! ### whole programs -/
-
-/-- **line → address for a whole program** (debug symbols on; statements on strictly increasing lines, as the parser produces
-    them).  For the statement `s` of an assembled program: if `s` lies inside a block and is not `.orig`, `.end` or
-    `.external`, the line it starts on maps to the location counter pass 1 had on reaching `s` — the address of its first
-    word (C01: both passes keep the same counter = block start + words before); otherwise that line maps to nothing.  A line
-    on which no statement starts (blank, comment, label-only continuation) maps to nothing. -/
-theorem line_maps_to_statement_address (pre post : List Stmt) (s : Stmt) (src : List Char) (t : SymTab) (st_pre : P1)
+/-- **line → address for any source text**: parse `src`, run pass 1 with debug symbols; the line on which the statement `s`
+    starts maps to the location counter at `s` (the address of its first word) when `s` is inside a block and is not
+    `.orig`/`.end`/`.external`, to nothing otherwise; lines on which no statement starts map to nothing -/
+theorem source_line_maps_to_statement_address (src : List Char) (pre post : List Stmt) (s : Stmt) (t : SymTab) (st_pre : P1)
+    (hp : parseAst src = .ok (pre ++ s :: post))
     (h : pass1 (pre ++ s :: post) (some src) = .ok t)
-    (hl : LinesFrom (SourceInfo.ofText src) (SourceInfo.ofText src).countLines 0 (pre ++ s :: post))
     (hpre : pre.foldlM pass1Step (p1Init (some src)) = .ok st_pre) :
     t.lookupLine ((SourceInfo.ofText src).getLine s.span.1) =
       (match st_pre.cursor with
        | some cur => if noLine s.nucleus then none else some cur.lc
        | none => none) ∧
-    ∀ k, (∀ x ∈ pre ++ s :: post, (SourceInfo.ofText src).getLine x.span.1 ≠ k) → t.lookupLine k = none := by
-  obtain ⟨h1, h2⟩ := lookup_line_spec pre post s src t st_pre h hl hpre
-  refine ⟨?_, h2⟩
-  rw [h1]
-  unfold lineEvent
-  cases st_pre.cursor with
-  | none => rfl
-  | some cur => cases noLine s.nucleus <;> rfl
+    ∀ k, (∀ x ∈ pre ++ s :: post, (SourceInfo.ofText src).getLine x.span.1 ≠ k) → t.lookupLine k = none :=
+  line_maps_to_statement_address pre post s src t st_pre h (parsed_lines_increasing src _ hp) hpre
 
-/-- **line → address, explicitly**: in a program made of `.orig … .end` blocks, the line of the statement at position
-    `pre ++ s :: post` of the body of the block `.orig a` maps to `a + size(pre)`: the block's origin plus the sizes of the
-    statements before it, i.e. the address of the statement's first word -/
-theorem line_maps_to_origin_plus_sizes (before : List Blk) (b : Blk) (more : List Stmt) (pre post : List Stmt) (s : Stmt)
-    (src : List Char) (t : SymTab) (hwf : ∀ x ∈ before, x.WF) (hb : b.WF) (hbody : b.body = pre ++ s :: post)
-    (hrec : noLine s.nucleus = false)
-    (h : pass1 (before.flatMap Blk.stmts ++ (b.stmts ++ more)) (some src) = .ok t)
-    (hl : LinesFrom (SourceInfo.ofText src) (SourceInfo.ofText src).countLines 0 (before.flatMap Blk.stmts ++ (b.stmts ++ more))) :
-    t.lookupLine ((SourceInfo.ofText src).getLine s.span.1) = some (b.a + sizeOf' pre) :=
-  lookup_line_explicit before b more pre post s src t hwf hb hbody hrec h hl
-
-/-- `find` returns a line whose entry is the address, whenever the address occurs in the map -/
-theorem find_some_of_mem (a : W) : ∀ (m : LineMap), (∃ b ∈ m, a ∈ b.2) →
-    ∃ b' ∈ m, ∃ i, ∃ hi : i < b'.2.length, b'.2[i] = a ∧ m.find a = some (b'.1 + i) := by
-  intro m
-  induction m with
-  | nil => rintro ⟨b, hb, _⟩; cases hb
-  | cons x xs ih =>
-    intro hex
-    obtain ⟨s0, w0⟩ := x
-    unfold LineMap.find
-    simp only [List.findSome?_cons]
-    by_cases hmem : a ∈ w0
-    · -- the first occurrence
-      have hfirst : ∃ j, ∃ hj : j < w0.length, w0[j] = a ∧ ∀ k (hk : k < j), w0[k]'(by omega) ≠ a := by
-        clear hex
-        induction w0 with
-        | nil => cases hmem
-        | cons y ys ihy =>
-          by_cases hy : y = a
-          · exact ⟨0, by simp, by simpa using hy, fun k hk => by omega⟩
-          · have hmem' : a ∈ ys := by
-              rcases List.mem_cons.mp hmem with h | h
-              · exact absurd h.symm hy
-              · exact h
-            obtain ⟨j, hj, h1, h2⟩ := ihy hmem'
-            refine ⟨j + 1, by simp; omega, by simpa using h1, fun k hk => ?_⟩
-            cases k with
-            | zero => simpa using hy
-            | succ k' => simpa using h2 k' (by omega)
-      obtain ⟨j, hj, h1, h2⟩ := hfirst
-      have hidx := idxOf_spec a w0 0 j hj h1 h2
-      refine ⟨(s0, w0), by simp, j, hj, h1, ?_⟩
-      simp [hidx]
-    · have hnone := idxOf_none a w0 0 hmem
-      obtain ⟨b, hb, hab⟩ := hex
-      have hb' : b ∈ xs := by
-        rcases List.mem_cons.mp hb with rfl | hb
-        · exact absurd hab hmem
-        · exact hb
-      obtain ⟨b', hb'm, i, hi, h1, h2⟩ := ih ⟨b, hb', hab⟩
-      refine ⟨b', by simp [hb'm], i, hi, h1, ?_⟩
-      simp only [hnone, Option.map_none]
-      exact h2
-
-theorem nonEmpty_of_chained : ∀ (m : LineMap) (lo : Nat), Chained m lo → NonEmptyBlocks m := by
-  intro m
-  induction m with
-  | nil => intro _ _ b hb; cases hb
-  | cons x xs ih =>
-    obtain ⟨s0, w0⟩ := x
-    intro lo h b hb
-    rcases List.mem_cons.mp hb with rfl | hb
-    · exact h.2.1
-    · exact ih _ h.2.2 b hb
-
-/-- on a valid map whose `get` is injective, `find` inverts `get` -/
-theorem find_inverts_get (m : LineMap) (lo : Nat) (hch : Chained m lo)
-    (hinj : ∀ l1 l2 x, m.get l1 = some x → m.get l2 = some x → l1 = l2) (l : Nat) (a : W) (h : m.get l = some a) :
-    m.find a = some l := by
-  have hlk : lk m l = some a := by rw [← get_eq_lk m lo hch l]; exact h
-  unfold lk at hlk
-  obtain ⟨b, hb, hbe⟩ := List.exists_of_findSome?_eq_some hlk
-  have hab : a ∈ b.2 := by
-    split at hbe
-    · exact List.mem_of_getElem? hbe
-    · cases hbe
-  obtain ⟨b', hb'm, i, hi, h1, h2⟩ := find_some_of_mem a m ⟨b, hb, hab⟩
-  have hg := get_of_mem m (chained_notOverlapping m lo hch) (nonEmpty_of_chained m lo hch) b'.1 b'.2 hb'm i hi
-  rw [h1] at hg
-  rw [h2, hinj _ _ _ hg h]
-
-/-- **the address maps back to the line** (and no address maps to two lines): in an assembled, structured program — statements on
-    increasing lines, every recorded statement at least one word long (as the parser guarantees: `.blkw 0` is rejected), string
-    literals below 64 K, non-overlapping blocks (what pass 2 checks) — `lookup_line` is injective and `rev_lookup_line` is its
-    inverse -/
-theorem rev_lookup_inverts (blks : List Blk) (tail : List Stmt) (src : List Char) (t : SymTab)
-    (hwf : ∀ b ∈ blks, b.WF) (ht : ∀ s ∈ tail, isOrigEnd s.nucleus = false)
-    (h : pass1 (blks.flatMap Blk.stmts ++ tail) (some src) = .ok t)
-    (hl : LinesFrom (SourceInfo.ofText src) (SourceInfo.ofText src).countLines 0 (blks.flatMap Blk.stmts ++ tail))
-    (hws : ∀ b ∈ blks, ∃ ws, bodyWords t b.a b.body = .ok ws) (hclear : blks.Pairwise (BlkClear t))
-    (hsz : ∀ b ∈ blks, Sized b.body) (hstr : ∀ b ∈ blks, ShortStrings b.body) :
-    (∀ l1 l2 a, t.lookupLine l1 = some a → t.lookupLine l2 = some a → l1 = l2) ∧
-    (∀ l a, t.lookupLine l = some a → t.revLookupLine a = some l) := by
-  have hinj := lookup_line_injective blks tail src t hwf ht h hl hws hclear hsz hstr
-  refine ⟨hinj, fun l a hla => ?_⟩
-  obtain ⟨_, _, _, _, _, _, m, hm, hch, _⟩ := final_vector _ src t h hl
-  have hget : ∀ k, t.lookupLine k = m.get k := by intro k; simp [SymTab.lookupLine, hm]
-  unfold SymTab.revLookupLine
-  rw [hm]
-  simp only [Option.bind_some]
-  exact find_inverts_get m 0 hch (fun l1 l2 x h1 h2 => hinj l1 l2 x (by rw [hget]; exact h1) (by rw [hget]; exact h2)) l a (by rw [← hget]; exact hla)
-
-/-- lines holding `.orig`, `.end` or `.external` map to nothing -/
-theorem marker_lines_map_to_nothing (pre post : List Stmt) (s : Stmt) (src : List Char) (t : SymTab) (st_pre : P1)
-    (h : pass1 (pre ++ s :: post) (some src) = .ok t)
-    (hl : LinesFrom (SourceInfo.ofText src) (SourceInfo.ofText src).countLines 0 (pre ++ s :: post))
-    (hpre : pre.foldlM pass1Step (p1Init (some src)) = .ok st_pre) (hm : noLine s.nucleus = true) :
-    t.lookupLine ((SourceInfo.ofText src).getLine s.span.1) = none := by
-  rw [(line_maps_to_statement_address pre post s src t st_pre h hl hpre).1]
-  cases st_pre.cursor with
-  | none => rfl
-  | some cur => simp [hm]
-
-/-- `LineSymbolMap::new` answers exactly the per-line vector (Lemmas/LineVec.lean) -/
-theorem new_answers_the_vector (ls : List (Option W)) (he : EndsNone ls) (hasc : Asc ls = true) :
-    ∃ m, LineMap.new ls = some m ∧ ∀ l, m.get l = (ls[l]?).join := by
-  obtain ⟨m, h1, h2, _, _⟩ := lineMap_new_spec ls he hasc
-  exact ⟨m, h1, h2⟩
+/-- **address → line for any source text**: if `src` parses and assembles with debug symbols, then in the resulting symbol
+    table no address maps to two lines and `rev_lookup_line` inverts `lookup_line` -/
+theorem source_rev_lookup_inverts (src : List Char) (stmts : List Stmt) (obj : ObjFile)
+    (hp : parseAst src = .ok stmts) (h : assemble stmts (some src) = .ok obj) :
+    ∃ t, obj.sym = some t ∧
+      (∀ l1 l2 a, t.lookupLine l1 = some a → t.lookupLine l2 = some a → l1 = l2) ∧
+      (∀ l a, t.lookupLine l = some a → t.revLookupLine a = some l) := by
+  obtain ⟨hstr, hsized, hl⟩ := parsed_program_lines src stmts hp
+  obtain ⟨blks, tail, t, hprog, hwf, hp1, hexts, hsorted, hall, hmem⟩ := C01.assembled_image_any stmts (some src) obj h
+  subst hprog
+  have htail : ∀ s ∈ tail, isOrigEnd s.nucleus = false := by
+    intro s hs
+    have := hexts.2 s hs
+    cases hn : s.nucleus with
+    | instr i => rfl
+    | directive d => rw [hn] at this; cases d <;> first | rfl | cases this
+  have hp2 : ∃ st, (blks.flatMap Blk.stmts ++ tail).foldlM (pass2Step t) ⟨[], none⟩ = .ok st ∧ obj.sym = some t := by
+    unfold assemble at h
+    rw [hp1] at h
+    dsimp only at h
+    unfold pass2 at h
+    cases hf : (blks.flatMap Blk.stmts ++ tail).foldlM (pass2Step t) ⟨[], none⟩ with
+    | error e => rw [hf] at h; cases h
+    | ok st => rw [hf] at h; cases h; exact ⟨st, rfl, by simp⟩
+  obtain ⟨st2, hf2, hsym⟩ := hp2
+  have hclear := (pass2_accepted_clear t blks [] tail st2 hwf htail ⟨List.Pairwise.nil, fun x hx => by cases hx⟩ hf2).1
+  have hws : ∀ b ∈ blks, ∃ ws, bodyWords t b.a b.body = .ok ws := fun b hb => let ⟨ws, hw, _⟩ := hall b hb; ⟨ws, hw⟩
+  have hmemstmt : ∀ b ∈ blks, ∀ s ∈ b.body, s ∈ blks.flatMap Blk.stmts ++ tail := by
+    intro b hb s hs
+    apply List.mem_append_left
+    exact List.mem_flatMap.mpr ⟨b, hb, by unfold Blk.stmts; simp [hs]⟩
+  have hsz : ∀ b ∈ blks, Sized b.body := fun b hb s hs hn => hsized s (hmemstmt b hb s hs) hn
+  have hss : ∀ b ∈ blks, ShortStrings b.body := fun b hb s hs x hx => hstr s (hmemstmt b hb s hs) x hx
+  obtain ⟨r1, r2⟩ := rev_lookup_inverts blks tail src t hwf htail hp1 hl hws hclear hsz hss
+  exact ⟨t, hsym, r1, r2⟩
 
 def obligations : List Lean.Name :=
-  [``rev_lookup_inverts, ``find_inverts_get, ``Lc3V.lookup_line_injective, ``Lc3V.recsAll_distinct, ``line_maps_to_origin_plus_sizes, ``line_maps_to_statement_address, ``marker_lines_map_to_nothing, ``new_answers_the_vector, ``keys_ge, ``lastLE_of_mem, ``get_of_mem, ``get_of_iter, ``find_of_mem, ``no_line_for_markers, ``line_recorded, ``no_line_outside_block]
+  [``source_rev_lookup_inverts, ``source_line_maps_to_statement_address, ``parsed_lines_increasing, ``Lc3V.parsed_program_lines,
+   ``Lc3V.parseAst_spec, ``Lc3V.lex_facts, ``Lc3V.lines_of_starts,
+   ``rev_lookup_inverts, ``find_inverts_get, ``Lc3V.lookup_line_injective, ``Lc3V.recsAll_distinct, ``line_maps_to_origin_plus_sizes, ``line_maps_to_statement_address, ``marker_lines_map_to_nothing, ``new_answers_the_vector, ``keys_ge, ``lastLE_of_mem, ``get_of_mem, ``get_of_iter, ``find_of_mem, ``no_line_for_markers, ``line_recorded, ``no_line_outside_block]
 
 end Lc3V.C24
